@@ -234,7 +234,7 @@ Section R.
 
   Lemma trim_space_snoc_space : forall s c, is_space c = true -> trim_space (s ++ [c]) = trim_space s.
   Proof.
-    intros. unfold trim_space. rewrite trim_left_app_space by assumption.
+    intros. unfold trim_space. rewrite <- !rev_alt. rewrite trim_left_app_space by assumption.
     destruct (trim_left s) as [|a t] eqn:E; [reflexivity|].
     rewrite rev_app_distr. cbn [rev app trim_left]. rewrite H. reflexivity.
   Qed.
